@@ -97,10 +97,21 @@ def spell(descr, fortran, shape, variant):
         return "{ 'descr' :  '%s' ,  'fortran_order' : %s ,   'shape' : %s  ,  }" % (descr, f, shp.replace(", ", " ,  "))
     if variant == "shape-trailing-comma":
         return "{'descr': '%s', 'fortran_order': %s, 'shape': (%s,), }" % (descr, f, ", ".join(map(str, shape)))
+    if variant == "repeated-key":
+        # a dict literal may name a key twice; the LAST occurrence counts (Python semantics, and what numpy's ast.literal_eval yields)
+        wrong = "(%d,)" % (prod_(shape) + 3)
+        return "{'shape': %s, 'descr': '|u1', 'fortran_order': %s, 'descr': '%s', 'shape': %s, }" % (wrong, f, descr, shp)
     raise ValueError(variant)
 
 
-VARIANTS = ["numpy", "double-quotes", "no-trailing-comma", "key-order", "tight", "airy", "shape-trailing-comma"]
+def prod_(xs):
+    p = 1
+    for x in xs:
+        p *= x
+    return p
+
+
+VARIANTS = ["numpy", "double-quotes", "no-trailing-comma", "key-order", "tight", "airy", "shape-trailing-comma", "repeated-key"]
 
 
 def build(header_text, payload, version=(1, 0), align=64, extra_pad=0):
